@@ -37,6 +37,8 @@ Stores(b) ==
   \cup {[op |-> "store_var_uint", obj |-> b, v |-> BigOfNat(v), L |-> 2] : v \in VarU}
   \cup {[op |-> "store_var_int", obj |-> b, v |-> BigOfInt(v), L |-> 2] : v \in VarS}
   \cup {[op |-> "store_bit", obj |-> b, bit |-> x] : x \in {0, 1}}
+  \cup {[op |-> "store_coins", obj |-> b, v |-> BigOfNat(v)] : v \in {0, 1, 255, 256}}
+  \cup {[op |-> "store_bytes", obj |-> b, bytes |-> y] : y \in {<<>>, <<0>>, <<165>>}}
   \cup {[op |-> "store_ref", obj |-> b, ref |-> c] : c \in Cel}
   \cup {[op |-> "store_maybe_ref", obj |-> b, ref |-> c] : c \in Cel \cup {0}}
   \cup {[op |-> "store_address", obj |-> b, addr |-> a] : a \in Addrs}
@@ -46,13 +48,17 @@ ReadSpec(c) ==
       [] c.op = "store_var_uint" -> [what |-> "var_uint", L |-> c.L, exp |-> [v |-> c.v]]
       [] c.op = "store_var_int"  -> [what |-> "var_int", L |-> c.L, exp |-> [v |-> c.v]]
       [] c.op = "store_bit"  -> [what |-> "bit", exp |-> [v |-> BigOfNat(c.bit)]]
+      [] c.op = "store_coins" -> [what |-> "var_uint", L |-> 4, exp |-> [v |-> c.v]]
+      [] c.op = "store_bytes" -> [what |-> "bytes", n |-> Len(c.bytes), exp |-> [bytes |-> c.bytes]]
       [] c.op = "store_ref"  -> [what |-> "ref", exp |-> [ref |-> c.ref]]
       [] c.op = "store_maybe_ref" -> [what |-> "maybe_ref", exp |-> IF c.ref = 0 THEN [none |-> 1] ELSE [ref |-> c.ref]]
       [] c.op = "store_address" -> [what |-> "address", exp |-> [addr |-> c.addr]]
 Reads(s) == {[op |-> o, obj |-> s, what |-> "uint", w |-> w] : o \in {"load", "preload"}, w \in 1..3}
        \cup {[op |-> o, obj |-> s, what |-> "int", w |-> w] : o \in {"load", "preload"}, w \in 1..3}
        \cup {[op |-> o, obj |-> s, what |-> x] : o \in {"load", "preload"}, x \in {"bit", "ref", "maybe_ref", "address"}}
-       \cup {[op |-> o, obj |-> s, what |-> "var_uint", L |-> 2] : o \in {"load", "preload"}}
+       \cup {[op |-> o, obj |-> s, what |-> "var_uint", L |-> l] : o \in {"load", "preload"}, l \in {2, 4}}
+       \cup {[op |-> o, obj |-> s, what |-> "bits", n |-> n] : o \in {"load", "preload"}, n \in 0..2}
+       \cup {[op |-> o, obj |-> s, what |-> "bytes", n |-> 1] : o \in {"load", "preload"}}
        \cup {[op |-> "skip_bits", obj |-> s, n |-> n] : n \in 1..3}
 Derive == {[op |-> "end_cell", obj |-> b, new |-> NewId] : b \in Bld}
      \cup {[op |-> o, obj |-> c, new |-> NewId] : o \in {"begin_parse", "cell_copy", "cell_to_builder"}, c \in Cel}
